@@ -131,6 +131,11 @@ def set_typed(repo: Repo):
 
 
 def run(repo: Repo, L: Ledger, tier: str):
+    L.rule("R6", "local caches are keyed on everything the cached value depends on")
+    from .shared import cache_key_complete
+
+    n_cache = sum(cache_key_complete(L, "R6", f_) for f_ in repo.functions.values())
+    L.ok("R6", "local caches", f"{n_cache} loop-local dict cache(s) examined", "src/tola")
     L.rule("R1", "order-sensitive uses of set-typed values are sorted or order-insensitive by pattern")
     L.rule("R2", "no clock / randomness / pid / id / hash / env read / dir listing / thread reachable from the CLIs")
     L.rule("R3", "no mutated global state; memoised functions pure; logging force=True")
